@@ -17,6 +17,10 @@ RELATED = {
     'C02_b': ['C02', 'C15'], 'C03_b': ['C03'], 'C05_b': ['C05'], 'C06_b': ['C06'], 'C07_b': ['C07'], 'C08_b': ['C08'],
     'C10_b': ['C10'], 'C13_b': ['C13'],
     'C04_c': ['C04'], 'C09_c': ['C09'], 'C11_c': ['C11'], 'C12_c': ['C12'], 'C14_c': ['C14', 'C10'], 'C15_c': ['C15'],
+    'C02_d': ['C02'], 'C03_d': ['C03'], 'C05_d': ['C05'], 'C06_d': ['C06'], 'C07_d': ['C07'], 'C08_d': ['C08'], 'C09_d': ['C09'], 'C10_d': ['C10'],
+    'C11_d': ['C11', 'C12'], 'C12_d': ['C12'], 'C13_d': ['C13'], 'C14_d': ['C14', 'C15'], 'C15_d': ['C15', 'C14'],
+    'C01_e': ['C01', 'C19'], 'C04_e': ['C04'], 'C05_e': ['C05'], 'C07_e': ['C07'], 'C09_e': ['C09'], 'C13_e': ['C13'], 'C16_e': ['C16'], 'C17_e': ['C17'],
+    'C18_e': ['C18'], 'C19_e': ['C19'], 'C20_e': ['C20'],
     'C01_c': ['C01', 'C12'], 'C16_c': ['C16'], 'C17_c': ['C17'], 'C18_c': ['C18', 'C13'], 'C19_c': ['C19', 'C03'], 'C20_c': ['C20'],
 }
 
